@@ -82,15 +82,15 @@ def nodes(a, b, n, kind):
     x = X[:, 0]
     u = 2 * _ulp(a, b)
     first, last = (a, b) if kind == 'uni' else (b, a)
-    if abs(x[0] - first) > u:
+    if not abs(x[0] - first) <= u:
         return FAIL(f'index 0 -> {x[0]!r}, expected {first!r} ({(x[0] - first) / u * 2:.1f} ulp)')
-    if abs(x[-1] - last) > u:
+    if not abs(x[-1] - last) <= u:
         return FAIL(f'index n-1 -> {x[-1]!r}, expected {last!r} ({(x[-1] - last) / u * 2:.1f} ulp)')
-    if x.min() < a - u or x.max() > b + u:
+    if not (x.min() >= a - u and x.max() <= b + u):
         return FAIL(f'range [{x.min()!r}, {x.max()!r}] leaves [{a!r}, {b!r}]')
     for i in range(n):
         w, tol = _node_exact(i, a, b, n, kind)
-        if abs(x[i] - w) > tol:
+        if not abs(x[i] - w) <= tol:
             return FAIL(f'node {i}: {x[i]!r} vs exact {w!r}')
     dx = np.diff(x)
     if not (np.all(dx > 0) if kind == 'uni' else np.all(dx < 0)):
@@ -223,7 +223,7 @@ def poi_scale_kinds(a, b, lim, seed):
         S = teneva.poi_scale(xs, a, b, kind)
         if S.shape != xs.shape or S.dtype.kind != 'f':
             return FAIL(f'{kind}: shape {S.shape} dtype {S.dtype}')
-        if S.min() < lo or S.max() > hi:
+        if not (S.min() >= lo and S.max() <= hi):
             return FAIL(f'{kind}: result [{S.min()!r}, {S.max()!r}] leaves [{lo}, {hi}]')
         for x, s in zip(xs[:, 0], S[:, 0]):
             fx, fa, fb = Fr(float(x)), Fr(a), Fr(b)
@@ -235,7 +235,7 @@ def poi_scale_kinds(a, b, lim, seed):
                 scale = (abs(x) + abs(a) + abs(b)) / w
             else:
                 scale = max(abs(float(ex)), EPS)
-            if abs(s - float(ex)) > 16 * EPS * scale + 1e-300:
+            if not abs(s - float(ex)) <= 16 * EPS * scale + 1e-300:
                 return FAIL(f'{kind}: point {x!r} -> {s!r}, exact {float(ex)!r} (scale {scale:.3e})')
             if (x <= a - 1e-3 * w and s != lo) or (x >= b + 1e-3 * w and s != hi):
                 return FAIL(f'{kind}: outside point {x!r} -> {s!r} not on the boundary of [{lo}, {hi}]')
@@ -446,17 +446,17 @@ def cdf_step(m, ties, seed, as_list):
     got = cdf(ts)
     if not isinstance(got, np.ndarray) or got.shape != ts.shape:
         return FAIL(f'array input -> {type(got).__name__} shape {np.shape(got)}')
-    if np.any(np.abs(got - want) > 2 * EPS):
+    if not np.all(np.abs(got - want) <= 2 * EPS):
         k = int(np.argmax(np.abs(got - want)))
         return FAIL(f't={ts[k]!r}: cdf {got[k]!r}, count(x<=t)/m = {want[k]!r}')
     for t, w in list(zip(ts, want))[:: max(1, len(ts) // 25)]:
         s = cdf(float(t))
-        if np.ndim(s) != 0 or abs(float(s) - w) > 2 * EPS:
+        if np.ndim(s) != 0 or not abs(float(s) - w) <= 2 * EPS:
             return FAIL(f'scalar input t={t!r}: {s!r} vs {w!r}')
     o = np.argsort(ts, kind='stable')
     if np.any(np.diff(got[o]) < 0):
         return FAIL('not monotone')
-    if got.min() < 0 or got.max() > 1 or cdf(-np.inf) != 0 or abs(cdf(xs[-1]) - 1) > 0:
+    if not (got.min() >= 0 and got.max() <= 1) or cdf(-np.inf) != 0 or cdf(xs[-1]) != 1:
         return FAIL('range: cdf(-inf) != 0 or cdf(max) != 1')
     return PASS
 
